@@ -33,6 +33,8 @@ def _cases(tier, rng):
     yield {'kind': 'mux', 'term': [['group_by', ['mod', 2], [['scan', ['append'], {'l': []}, True, None]]]], 'items': [1, 2, 3, 4, 5]}
     yield {'kind': 'mux', 'term': [['roll', 2, 2, [['scan', ['append'], {'l': []}, True, None, 'factory']]]], 'items': [1, 2, 3, 4, 5]}
     yield {'kind': 'mux', 'term': [['split', ['floordiv', 2], [['scan', ['add'], 7, True, ['neg']]]]], 'items': [0, 1, 2, 3, 4]}
+    yield {'kind': 'mux', 'term': [['group_by', ['mod', 2], [['scan', ['append_fst'], {'t': [{'l': []}, 0]}, True, None]]]], 'items': [1, 2, 3, 4, 5]}
+    yield {'kind': 'mux', 'term': [['roll', 2, 2, [['scan', ['append_fst'], {'t': [{'l': []}, 0]}, True, None]]]], 'items': [1, 2, 3, 4, 5]}
     n = {'quick': 1500, 'thorough': 10000, 'search': 600}[tier]
     for _ in range(n):
         r = rng.random()
@@ -43,8 +45,11 @@ def _cases(tier, rng):
             if rng.random() < 0.6:
                 st = ['scan', ['append'], {'l': []}, True, None] + rng.choice([[], ['factory']])
                 st = [st]
-            else:
+            elif rng.random() < 0.5:
                 st = [['scan', ['append'], {'l': []}, False, None] + rng.choice([[], ['factory']]), ['map', ['freeze']]]
+            else:
+                # a tuple seed given as a VALUE that holds a mutable list (only shallowly immutable): copied per lifetime like any seed
+                st = [['scan', ['append_fst'], {'t': [{'l': []}, 0]}, True, None]]
         else:
             st = rng.choice([['count', rng.random() < 0.5], ['to_list'], ['batch', rng.choice([1, 2, 3])], ['duc', None]])
         sts = st if isinstance(st[0], list) else [st]
@@ -127,4 +132,7 @@ def cases(tier, rng):
 
 
 def oracle(case, r):
-    return muxprop.prelude_violation(case, r) or _oracle(case, r)
+    v = muxprop.prelude_violation(case, r)
+    if v or case.get('share'):
+        return v        # the shared-operator variant wraps the pipeline in a tee_map: judged against separately built operators only
+    return _oracle(case, r)
